@@ -58,20 +58,24 @@ theorem backlog_loop (log : List Nat) (hdr : Nat → T_wire_BlockHeader)
 
 theorem trans_notificationsSinceHeight (s : State) (h : Nat) (hdr : Nat → T_wire_BlockHeader)
     (newConn : T_wire_BlockHeader → Nat → Option T_blockntfns_Connected)
-    (box : Option T_blockntfns_Connected → Atom) (hh : h + 1 < 2 ^ 32) :
+    (box : Option T_blockntfns_Connected → Atom) (hb : s.ftip.height + 1 < 2 ^ 32) :
     NotificationsSinceHeight h s.ftip.height (fetchOf s.log hdr) newConn box
       = match (backlog s h).res with
         | .err => ([], 0, true)
         | .ok => ((backlog s h).bl.map (fun nd => box (newConn (hdr nd.id) nd.height)), (backlog s h).best, false) := by
   unfold NotificationsSinceHeight backlog
+  generalize s.ftip.height = best at hb ⊢
   by_cases h0 : h = 0
-  · simp [h0]
-  by_cases h1 : s.ftip.height = h
-  · simp [h0, h1]
-  by_cases h2 : s.ftip.height < h
-  · simp [h0, h1, h2]
-  · have hr : s.ftip.height + 1 - (h + 1) = s.ftip.height - h := by omega
-    simp only [h0, h1, h2, ↓reduceIte, uadd_of_lt hh, rangeUpN_eq_upFrom, hr, backlog_loop]
-    cases backlogRange s.log (h + 1) (s.ftip.height - h) <;> simp
+  · subst h0; simp
+  by_cases h1 : best = h
+  · subst h1; simp [h0]
+  have h1' : ¬ h = best := fun e => h1 e.symm
+  by_cases h2 : best < h
+  · simp [h0, h1, h1', h2]
+  · have hr : best + 1 - (h + 1) = best - h := by omega
+    have hu1 : uadd 32 h 1 = h + 1 := uadd_of_lt (by omega)
+    have hu2 : uadd 32 best 1 = best + 1 := uadd_of_lt hb
+    simp only [h0, h1, h1', h2, false_or, or_false, or_self, ↓reduceIte, hu1, hu2, rangeUpN_eq_upFrom, hr, backlog_loop]
+    cases backlogRange s.log (h + 1) (best - h) <;> simp
 
 end Neutrino.BM
